@@ -1,5 +1,6 @@
 import SkgVerif.Lemmas.Kriging
 import SkgVerif.Lemmas.Pairs
+import SkgVerif.Lemmas.CondIdx
 /-!
 # C20 — metric spaces hold true distances; neighbour search = nearest N within range
 -/
@@ -22,6 +23,13 @@ theorem C20_squareform (d : ℕ → ℕ → Rat) (i j : ℕ) :
   · intro h
     have : i ≠ j := by omega
     simp [squareOf, this, Nat.min_eq_left h.le, Nat.max_eq_right h.le]
+
+/-- the square matrix entry `(i, j)`, `i < j < n`, is entry `condIdx n i j` of the condensed
+vector: a bijection between the condensed order and the strict upper triangle -/
+theorem C20_condensed_bijection (n : ℕ) :
+    (∀ i j, i < j → j < n → (pairs n)[condIdx n i j]? = some (i, j)) ∧ (pairs n).Nodup ∧
+    (∀ p ∈ pairs n, p.1 < p.2 ∧ p.2 < n) :=
+  ⟨fun i j hij hj => pairs_condIdx n i j hij hj, nodup_pairs n, fun p hp => (mem_pairs n p).1 hp⟩
 
 /-- neighbour search returns the N nearest points among those within the maximum distance
 (all of them if fewer than N) -/
